@@ -91,6 +91,22 @@ Section C29.
     step keqb c o = (c', r, lg) -> c' = c /\ lg = [].
   Proof. exact (readonly_ops keqb). Qed.
 
+  (* 5'. Presence is decided by the key, never by the value: V is arbitrary (Go's nil interface is
+        just one more value), and for every stored value PeekOrAdd / ContainsOrAdd on a present
+        key return (stored value, true) / true and leave the cache untouched; on an absent key
+        they are Add. *)
+  Theorem C29_presence_is_decided_by_key :
+    forall k v w (c : cache K V),
+    (In k (keys c) ->
+       exists v0, In (k, v0) (pairs c) /\ peek keqb k c = Some v0 /\ contains keqb k c = true /\
+                  peek_or_add keqb k v w c = (c, [], Some v0, 0) /\
+                  contains_or_add keqb k v w c = (c, [], true, 0)) /\
+    (~ In k (keys c) ->
+       peek keqb k c = None /\ contains keqb k c = false /\
+       peek_or_add keqb k v w c = (let '(c', lg, n) := add keqb k v w c in (c', lg, None, n)) /\
+       contains_or_add keqb k v w c = (let '(c', lg, n) := add keqb k v w c in (c', lg, false, n))).
+  Proof. exact (presence_by_key keqb keqb_spec). Qed.
+
   (* 6. Remove / RemoveOldest / Purge / Resize report exactly what they drop, once. *)
   Theorem C29_remove_reports_once :
     forall k (c c' : cache K V) lg b,
@@ -185,6 +201,14 @@ Example C29_ex_last_use :
   map (fun k => last_use N.eqb k ex_ops tr) [5; 6; 7; 8] = [7; 8; 10; 11]%nat /\ keys c = [6; 7; 8].
 Proof. intros c0 c tr [= <-]. vm_compute. intros [= <- <-]. split; reflexivity. Qed.
 
+(* values with a distinguished nil (V = option N, None = Go's nil): a key stored with value nil is
+   present; PeekOrAdd returns (nil, found) and changes nothing *)
+Example C29_ex_nil_value :
+  forall c0, new 3 2%Z = Some c0 ->
+  snd (run N.eqb c0 [OAdd 1 None 1; OPeekOrAdd 1 (Some 9) 1; OContainsOrAdd 1 (Some 8) 1; OGet 1; OKeys]) =
+    [(RCount 0, []); (RPrevCount (Some None) 0, []); (RFoundCount true 0, []); (RVal (Some (@None N)), []); (RKeys [1], [])].
+Proof. intros c0 [= <-]. vm_compute. reflexivity. Qed.
+
 Example C29_ex_reachable : exists c : cache N N, reachable N.eqb c /\ c_entries c <> [] /\ c_max_weight c < 9.
 Proof.
   exists (mkCache [mkEntry 3 30 1; mkEntry 1 10 2] 3 3 2 false). split; [|split; [discriminate | reflexivity]].
@@ -210,6 +234,7 @@ Print Assumptions C29_add_evicts_no_more_than_needed.
 Print Assumptions C29_heavy_entry_evicted_at_once.
 Print Assumptions C29_get_refreshes.
 Print Assumptions C29_peek_contains_do_not_refresh.
+Print Assumptions C29_presence_is_decided_by_key.
 Print Assumptions C29_remove_reports_once.
 Print Assumptions C29_remove_oldest_reports_once.
 Print Assumptions C29_purge_reports_everything.
